@@ -35,7 +35,7 @@ type Explorer struct {
 	Diverged   string
 }
 
-func (x *Explorer) cost(p PointRec, alt int) int {
+func (x *Explorer) Cost(p PointRec, alt int) int {
 	if x.Delay {
 		if alt >= p.Free {
 			return 1
@@ -91,7 +91,7 @@ func (x *Explorer) explore(prefix []int, from int) {
 				if alt == p.Chosen {
 					continue
 				}
-				if used+x.cost(p, alt) > x.Bound {
+				if used+x.Cost(p, alt) > x.Bound {
 					continue
 				}
 				np := make([]int, i+1)
@@ -100,7 +100,7 @@ func (x *Explorer) explore(prefix []int, from int) {
 				x.explore(np, i+1)
 			}
 		}
-		used += x.cost(p, p.Chosen)
+		used += x.Cost(p, p.Chosen)
 	}
 }
 
